@@ -22,6 +22,7 @@ struct Plan : sim::PlanBase {
   int F = 4;            // frames in the synthetic trajectory
   long first_frame = -1;  // -1: option not given
   long nframes = -1;      // -1: option not given
+  double begin = -1;      // < 0: option not given; frames carry time = frame number
   bool ordered = true;    // SynchronizeThreads()
   uint64_t eval_seed = 0; // decides how many decision points an evaluation contains
   int eval_max = 2;
@@ -186,6 +187,7 @@ History run_once(const Plan &plan, int N, const sim::SchedSpec &spec, long budge
   std::vector<std::string> args = {"c05_lib", "--top", "x.simtop", "--trj", "x.simtrj", "--nt", std::to_string(N)};
   if (plan.first_frame >= 0) { args.push_back("--first-frame"); args.push_back(std::to_string(plan.first_frame)); }
   if (plan.nframes >= 0) { args.push_back("--nframes"); args.push_back(std::to_string(plan.nframes)); }
+  if (plan.begin >= 0) { args.push_back("--begin"); args.push_back(std::to_string(plan.begin)); }
   std::vector<char *> argv;
   for (auto &a : args) argv.push_back(const_cast<char *>(a.c_str()));
   std::vector<uint64_t> states;
@@ -244,6 +246,7 @@ struct Lib {
     std::vector<long> nf = {-1, -1, -1, 0, 1, 2, std::max(0, p.N - 1), p.N, p.N + 1, p.F, p.F + 3, (long)r.below((uint64_t)p.F + 2)};
     p.nframes = r.pick(nf);
     p.ordered = r.chance(0.5);
+    if (r.chance(0.2)) { std::vector<double> bs = {0.0, 1.5, 2.0, (double)p.F - 0.5, (double)p.F + 1.0, (double)r.below((uint64_t)p.F + 1) + 0.5}; p.begin = r.pick(bs); }
     p.eval_seed = r.next();
     p.eval_max = (int)r.below(4);
     p.pick_strategy(r);
@@ -254,7 +257,7 @@ struct Lib {
     js::Value v = js::Value::obj();
     p.base_to_json(v);
     v.set("N", p.N).set("F", p.F).set("first_frame", p.first_frame).set("nframes", p.nframes).set("ordered", p.ordered)
-     .set("eval_seed", (long long)(p.eval_seed >> 1)).set("eval_max", p.eval_max);
+     .set("eval_seed", (long long)(p.eval_seed >> 1)).set("eval_max", p.eval_max).set("begin", p.begin);
     return v;
   }
   static Plan from_json(const js::Value &v) {
@@ -262,6 +265,7 @@ struct Lib {
     p.base_from_json(v);
     p.N = (int)v.num("N", 2); p.F = (int)v.num("F", 1); p.first_frame = (long)v.num("first_frame", -1); p.nframes = (long)v.num("nframes", -1);
     p.ordered = v.at("ordered").b; p.eval_seed = (uint64_t)v.num("eval_seed", 0) << 1; p.eval_max = (int)v.num("eval_max", 0);
+    p.begin = v.has("begin") ? v.at("begin").d : -1;
     return p;
   }
 
@@ -275,6 +279,7 @@ struct Lib {
     if (p.first_frame == 0) { Plan q = p; q.first_frame = -1; add(q); }
     if (p.nframes > 1) { Plan q = p; q.nframes = p.nframes - 1; add(q); }
     if (p.nframes >= 0) { Plan q = p; q.nframes = -1; add(q); }
+    if (p.begin >= 0) { Plan q = p; q.begin = -1; add(q); }
     if (p.strat_type != sim::Strategy::RW) { Plan q = p; q.strat_type = sim::Strategy::RW; add(q); }
     return out;
   }
